@@ -2,6 +2,7 @@
 //! observations as integer-only ndjson for the TLA+ trace specifications.
 pub mod pgen;
 pub mod evalx;
+pub mod hooks;
 pub mod keys;
 pub mod tapes;
 
